@@ -385,8 +385,11 @@ def _install_task_exc(fnames: set):
 
     def lint_rendered(rendered: Any, rule_pack: Any, fix: bool = False, formatter: Any = None):
         base = os.path.basename(rendered.fname)
-        if base in fnames and base not in done:
-            done.add(base)
+        key = os.path.normpath(rendered.fname)
+        # once per FILE (not per basename): two files with the same basename in different directories
+        # must fail alike whether one process sees both or two workers see one each
+        if base in fnames and key not in done:
+            done.add(key)
             raise RuntimeError("vsim injected task failure for %s" % base)
         return orig(rendered, rule_pack, fix, formatter)
 
